@@ -259,6 +259,16 @@ def build_as(case, surfaces=None, setup=True, mode="auto", npts=None, complex_=F
                 c("point_masses", pt + ".coupled." + name + ".point_masses")
                 c("point_mass_locations", pt + ".coupled." + name + ".point_mass_locations")
                 c("engine_thrusts", pt + ".coupled." + name + ".engine_thrusts")
+    if case.get("fuel_vol_delta"):
+        # the fuel-volume constraint component, mounted as the repository's wingbox examples mount it
+        from openaerostruct.structures.wingbox_fuel_vol_delta import WingboxFuelVolDelta
+
+        for s in surfaces:
+            if s["fem_model_type"] == "wingbox":
+                n = s["name"]
+                prob.model.add_subsystem(n + "_fuel_vol_delta", WingboxFuelVolDelta(surface=s))
+                c(n + ".struct_setup.fuel_vols", n + "_fuel_vol_delta.fuel_vols")
+                c("AS_point_0.fuelburn", n + "_fuel_vol_delta.fuelburn")
     if setup:
         with warnings.catch_warnings():
             warnings.simplefilter("ignore")
